@@ -375,12 +375,29 @@ def domains_by_scrutinee(nodes, const_of=None) -> Dict[str, set]:
             operands = [n.left] + list(n.comparators)
             for i, op in enumerate(n.ops):
                 l, r = operands[i], operands[i + 1]
+                def table_lookup(x):
+                    """`TABLE[<scrutinee>]` with TABLE a constant mapping: -> (the mapping, the key expression)"""
+                    if const_of is not None and isinstance(x, ast.Subscript) and not isinstance(x.slice, ast.Constant):
+                        tv = const_of(x.value)
+                        if isinstance(tv, dict):
+                            return tv, x.slice
+                    return None
                 for scrut, other in ((l, r), (r, l)):
                     if not isinstance(scrut, (ast.Name, ast.Subscript, ast.Attribute)):
                         continue
                     if const_of is not None and not isinstance(scrut, ast.Constant) and const_of(scrut) is not None:
                         continue
+                    if table_lookup(scrut) is not None:
+                        continue            # a constant side; its key expression is the scrutinee (below)
                     ov = const_of(other) if const_of is not None and not isinstance(other, ast.Constant) else None
+                    tl = table_lookup(other)
+                    if tl is not None:
+                        # every value of the mapping may be the thing compared with; the key ranges over the mapping's keys
+                        ov = set()
+                        for v_ in tl[0].values():
+                            ov |= strings_of(v_)
+                        ov = tuple(sorted(ov))
+                        doms.setdefault(norm(tl[1]), set()).update(strings_of(tl[0]))
                     if ov is not None:
                         consts = strings_of(ov)
                     else:
